@@ -5,8 +5,8 @@
 
    Domain of the faithfulness theorems: dictionary keys are scalars and set elements are scalars or sets
    (`hashable_positions`; outside it: D18, D28 - refutation witnesses below), no instances of custom
-   classes (`has_objects g = false`; with them copy() == fails: D29 - and the proofs do not cover PObj, hence
-   the suffix _partial), Python's own invariants (`python_wf`: keys of one dict pairwise unequal).
+   classes (`has_objects g = false`: the proofs do not cover PObj, hence the suffix _partial; the model does,
+   and the harness checks it), Python's own invariants (`python_wf`: keys of one dict pairwise unequal).
    That json.build_tree / BasicBuilder / pydiff build the same tree is proved on an example and checked on
    every generated case by clause ClSameTree of holds_C18, not proved in general. *)
 From Coq Require Import String List Bool ZArith.
@@ -46,7 +46,8 @@ Theorem C18_shared_partial : forall b o g,
                /\ (forall t, run_builder b o g fuel root = Built t -> has_placeholder t = false).
 Proof. exact BuilderProofs.shared_not_cycle. Qed.
 
-(* (c) cycle checking on, a cycle is reachable: cycle error, or (cycles ignored) a tree with a placeholder *)
+(* (c) cycle checking on, a cycle is reachable: cycle error, or (cycles ignored) a tree with a placeholder,
+   which is its own deep copy *)
 Theorem C18_cyclic_partial : forall b o g,
   check_cycles o = true ->
   hashable_positions g = true -> python_wf g = true -> has_objects g = false -> closed g = true ->
@@ -54,7 +55,7 @@ Theorem C18_cyclic_partial : forall b o g,
   forall fuel, (fuel_bound b o g root <= fuel)%nat ->
     (ignore_cycles o = false -> run_builder b o g fuel root = Raised ECycle)
     /\ (ignore_cycles o = true ->
-        exists t, run_builder b o g fuel root = Built t /\ has_placeholder t = true).
+        exists t, run_builder b o g fuel root = Built t /\ has_placeholder t = true /\ copy t = t).
 Proof. exact BuilderProofs.cyclic_detected. Qed.
 
 (* an acyclic graph reaches no cycle (the two hypotheses above exclude each other) *)
@@ -104,16 +105,17 @@ Theorem C18_refuted_container_keys :                 (* D28 *)
   /\ run_builder BasicB o_default g_set_keys (fuel_bound BasicB o_default g_set_keys 0) 0 = Raised ETypeError.
 Proof. exact BuilderProofs.acyclic_refuted_container_keys. Qed.
 
-Theorem C18_refuted_pyobj_copy :                     (* D29 *)
+(* formerly D29 / D30, repaired in /repo: copies of trees with custom objects / placeholders are equal *)
+Theorem C18_copy_pyobj_example :
   acyclic g_obj 0 /\
   exists t, run_builder PyObjB o_default g_obj (fuel_bound PyObjB o_default g_obj 0) 0 = Built t
-            /\ copy t = t /\ tree_pyeq (copy t) t = false.
-Proof. exact BuilderProofs.copy_refuted_pyobj. Qed.
+            /\ copy t = t /\ tree_pyeq (copy t) t = true.
+Proof. exact BuilderProofs.copy_pyobj_example. Qed.
 
-Theorem C18_refuted_placeholder_copy :               (* D30 *)
+Theorem C18_copy_placeholder_example :
   exists t, run_builder BasicB o_ignore g_self (fuel_bound BasicB o_ignore g_self 0) 0 = Built t
-            /\ copy t <> t /\ tree_pyeq (copy t) t = false.
-Proof. exact BuilderProofs.copy_refuted_placeholder. Qed.
+            /\ has_placeholder t = true /\ copy t = t /\ tree_pyeq (copy t) t = true.
+Proof. exact BuilderProofs.copy_placeholder_example. Qed.
 
 Theorem C18_refuted_json_bytes :                     (* D31 *)
   json_run o_default g_bytes 0 = Built (TList [TLeaf KStr (SStr "ab")])
